@@ -420,3 +420,36 @@ def assert_range(cfg):
     res.count('counter assertions', n)
     res.floor('counter assertions', 2)
     return res
+
+
+def assert_optimistic(cfg):
+    """ASSERT-2: no assertion on state that was read optimistically (assertion-enabled configurations, OLC instantiation)"""
+    res = RuleResult('ASSERT-2', 'the node constructors of the OLC index that copy from an existing node (the larger / smaller replacement built BEFORE the write guards are taken, from a node that is only read-locked) assert nothing about that source node: its fields are unvalidated optimistic reads, a concurrent writer may have changed them - the operation is about to notice (its upgrade fails and it restarts), an assertion on them aborts a legal interleaving instead')
+    if '-debug-' not in cfg.name:
+        res.note('assertion-enabled configurations only')
+        return res
+    n = 0
+    for f in cfg.functions:
+        if not f.blocks or not f.d.get('ctor') or 'unodb::olc_db' not in f.cls or 'inode' not in f.cls:
+            continue
+        src = [p for p in f.params if 'inode' in (p.get('t') or '') and ('&' in (p.get('t') or ''))]
+        if not src:
+            continue
+        n += 1
+        res.functions.add(f.sig)
+        dids = {p['did'] for p in src}
+        bad = []
+        for b, i, e in f.elements():
+            if e.get('macro') != 'UNODB_DETAIL_ASSERT':
+                continue
+            hit = []
+            f.walk(e, lambda y: hit.append(y) if (y.get('k') == 'ref' and y.get('did') in dids) else None)
+            if hit:
+                bad.append(e)
+        ok = not bad
+        res.ob(ok, {'rule': 'ASSERT-2', 'function': sh(f.sig)[:110], 'source_parameters': [p['name'] for p in src], 'verdict': 'discharged' if ok else 'VIOLATION'} if n < 80 else None)
+        if not ok:
+            res.find(f, bad[0].get('loc'), 'the constructor asserts on its source node `%s`, which in the OLC index is only read-locked while the replacement node is built (the write guards are taken afterwards): a concurrent remove / insert between the caller\'s check and this constructor makes the assertion fail on a legal interleaving - the release build would simply fail the upgrade and restart' % src[0]['name'], key='ASSERT-2:%s' % sh(f.cls).split('<')[0][-30:], config=cfg.name)
+    res.count('copying node constructors (OLC)', n)
+    res.floor('copying node constructors (OLC)', 8)
+    return res
